@@ -355,6 +355,13 @@ func (l *Ledger) saveBlock(block *pb.InternalBlock, batchWrite kvdb.Batch) error
 	return nil
 }
 
+// purgeHeaderCache empties the header cache (a read-through cache: the next reader takes headers from storage)
+func (l *Ledger) purgeHeaderCache() {
+	for _, key := range l.blkHeaderCache.Keys() {
+		l.blkHeaderCache.Del(key)
+	}
+}
+
 //根据blockid获取一个Block, 只包含区块头
 func (l *Ledger) fetchBlock(blockid []byte) (*pb.InternalBlock, error) {
 	blkInCache, cacheHit := l.blkHeaderCache.Get(string(blockid))
@@ -562,6 +569,13 @@ func (l *Ledger) ConfirmBlock(block *pb.InternalBlock, isRoot bool) ConfirmStatu
 	blkTimer := timer.NewXTimer()
 	l.xlog.Info("start to confirm block", "blockid", utils.F(block.Blockid), "txCount", len(block.Transactions))
 	var confirmStatus ConfirmStatus
+	defer func() {
+		if !confirmStatus.Succ {
+			// a refused confirmation leaves no trace: the headers edited on the way (saveBlock, handleFork) are
+			// dropped from the header cache, the next reader takes them from storage again
+			l.purgeHeaderCache()
+		}
+	}()
 	dummyTransactions := []*pb.Transaction{}
 	realTransactions := block.Transactions // 真正的交易转存到局部变量
 	block.Transactions = dummyTransactions // block表不保存transaction详情
